@@ -10,12 +10,12 @@ git diff HEAD -- . ':(exclude)_seeded' > $out/patch.diff
 [ -s $out/patch.diff ] || { echo "empty patch"; exit 1; }
 cp _seeded/demo_test.go $PKG/zz_seeded_demo_test.go
 echo "== build"; go build ./... || { echo BUILD-FAIL; exit 1; }
-echo "== demo WITH change (expect FAIL)"; go test -count=1 -run "$RUN" ./$PKG/ > /tmp/cm_with.log 2>&1; with=$?; tail -4 /tmp/cm_with.log
+echo "== demo WITH change (expect FAIL)"; go test ${TAGS:+-tags $TAGS} -count=1 -run "$RUN" ./$PKG/ > /tmp/cm_with.log 2>&1; with=$?; tail -4 /tmp/cm_with.log
 git apply -R $out/patch.diff || exit 1
-echo "== demo WITHOUT change (expect ok)"; go test -count=1 -run "$RUN" ./$PKG/ > /tmp/cm_without.log 2>&1; without=$?; tail -2 /tmp/cm_without.log
+echo "== demo WITHOUT change (expect ok)"; go test ${TAGS:+-tags $TAGS} -count=1 -run "$RUN" ./$PKG/ > /tmp/cm_without.log 2>&1; without=$?; tail -2 /tmp/cm_without.log
 git apply $out/patch.diff
 rm -f $PKG/zz_seeded_demo_test.go
-echo "== existing tests with change"; pk="./$PKG/ $@"; go test -count=1 $pk > /tmp/cm_tests.log 2>&1; tests=$?; tail -5 /tmp/cm_tests.log
+echo "== existing tests with change"; pk="./$PKG/ $@"; go test ${TAGS:+-tags $TAGS} -count=1 $pk > /tmp/cm_tests.log 2>&1; tests=$?; tail -5 /tmp/cm_tests.log
 cp _seeded/demo_test.go $out/demo_test.go
 python3 - "$ID" "$with" "$without" "$tests" "$PKG" "$RUN" "$pk" <<'PY'
 import json,sys
